@@ -174,6 +174,7 @@ func (inv *Invoice) ValidateWithContext(ctx context.Context) error {
 		validation.Field(&inv.Notes),
 		validation.Field(&inv.Complements),
 		validation.Field(&inv.Meta),
+		validation.Field(&inv.Attachments),
 	)
 }
 
